@@ -507,6 +507,12 @@ func (ctx *context) compareNodesetsAndPush(
 			return
 		}
 		set1 = op1.(nodesetDatum).literalSlice()
+	} else if isDatumSlice(op1) {
+		// A multi-valued leaf-list compares existentially, like a nodeset.
+		if set1 = op1.DatumSlice(operator); len(set1) == 0 {
+			ctx.pushDatum(NewBoolDatum(false))
+			return
+		}
 	}
 
 	if isNodeset(op2) {
@@ -515,6 +521,11 @@ func (ctx *context) compareNodesetsAndPush(
 			return
 		}
 		set2 = op2.(nodesetDatum).literalSlice()
+	} else if isDatumSlice(op2) {
+		if set2 = op2.DatumSlice(operator); len(set2) == 0 {
+			ctx.pushDatum(NewBoolDatum(false))
+			return
+		}
 	}
 
 	ctx.compareAndPushNodesets(
@@ -541,8 +552,8 @@ func (ctx *context) popCompareEqualityAndPush(
 	op2 := ctx.popDatum()
 	op1 := ctx.popDatum()
 
-	op1IsNodeset := isNodeset(op1)
-	op2IsNodeset := isNodeset(op2)
+	op1IsNodeset := isNodeset(op1) || isDatumSlice(op1)
+	op2IsNodeset := isNodeset(op2) || isDatumSlice(op2)
 
 	switch {
 	case op1IsNodeset || op2IsNodeset:
@@ -581,8 +592,8 @@ func (ctx *context) popCompareRelationalAndPush(
 	op2 := ctx.popDatum()
 	op1 := ctx.popDatum()
 
-	op1IsNodeset := isNodeset(op1)
-	op2IsNodeset := isNodeset(op2)
+	op1IsNodeset := isNodeset(op1) || isDatumSlice(op1)
+	op2IsNodeset := isNodeset(op2) || isDatumSlice(op2)
 
 	switch {
 	case op1IsNodeset || op2IsNodeset:
